@@ -293,10 +293,53 @@ pub fn ob_insert_full_load<S: Src, const N: usize, const N2: usize>(s: &mut S) -
         Some(st) => st,
         None => return Ok(()),
     };
+    let mut directed: Option<u64> = None;
     if s.native() {
-        // saturate: turn EMPTY buckets into tombstones until growth_left == 0 (F2 is unaffected by
-        // EMPTY -> DELETED on tables of at least one group; smaller tables hold no tombstones)
-        if N >= Group::WIDTH {
+        let w = Group::WIDTH;
+        if N >= 4 * w && s.bool() {
+            // directed profile: the probe window of home h is completely full and contains one
+            // element e whose own home window (h - W) holds only tombstones; an in-place rehash moves e
+            // home and opens an EMPTY hole in window(h), in front of whatever lies behind it
+            st = St::<N> { kind: [K_EMPTY; N], val: [0; N] };
+            let h = s.below(N);
+            let h2 = (h + N - w) & (N - 1);
+            let hi = s.u64() & !0xFFu64;
+            for_upto!(i, w, {
+                // fillers with home h2 occupy window(h2)
+                let v = (h2 as u64) | hi | ((i as u64) << 12);
+                let slot = spec_first_special(&st, h2);
+                st.kind[slot] = K_FULL;
+                st.val[slot] = v;
+            });
+            // e: home h2, displaced into window(h)
+            let e = (h2 as u64) | hi | (0x77 << 12);
+            let slot = spec_first_special(&st, h2);
+            st.kind[slot] = K_FULL;
+            st.val[slot] = e;
+            // the rest of window(h): elements with home h
+            for_upto!(i, w - 1, {
+                let v = (h as u64) | hi | ((i as u64 + 0x100) << 12);
+                let slot = spec_first_special(&st, h);
+                st.kind[slot] = K_FULL;
+                st.val[slot] = v;
+            });
+            // the fillers are removed again: tombstones
+            for_upto!(i, N, {
+                if st.kind[i] == K_FULL && (hash_of(st.val[i]) as usize) & (N - 1) == h2 && st.val[i] != e {
+                    st.kind[i] = K_DELETED;
+                }
+            });
+            // saturate with tombstones, leaving the EMPTY buckets at the start of window(h + W)
+            for_upto!(i, N, {
+                let idx = (h + w + N - 1 - i) & (N - 1);
+                if st.kind[idx] == K_EMPTY && st.items() + st.deleted() < St::<N>::CAP {
+                    st.kind[idx] = K_DELETED;
+                }
+            });
+            directed = Some((h as u64) | (s.u64() & !0xFFu64));
+        } else if N >= w {
+            // saturate: turn EMPTY buckets into tombstones until growth_left == 0 (F2 is unaffected by
+            // EMPTY -> DELETED on tables of at least one group; smaller tables hold no tombstones)
             for_upto!(i, N, {
                 if st.kind[i] == K_EMPTY && st.items() + st.deleted() < St::<N>::CAP {
                     st.kind[i] = K_DELETED;
@@ -305,7 +348,11 @@ pub fn ob_insert_full_load<S: Src, const N: usize, const N2: usize>(s: &mut S) -
         }
     }
     req!(s, st.accounting_ok() && st.growth_left() == 0 && st.reach_all());
-    let v = s.u64();
+    let v = match directed {
+        Some(v) => v,
+        None => s.u64(),
+    };
+    reach!(directed.is_some(), "directed full-window profile");
     let first = spec_first_special(&st, (hash_of(v) as usize) & (N - 1));
     req!(s, first != usize::MAX && st.kind[first] == K_EMPTY);
     let mut t = build(&st);
